@@ -68,7 +68,10 @@ func c19Sources() []ev.E {
 		out = append(out, ev.EDFloat(d))
 	}
 	for _, s := range []string{"5", "-5", "0.5", "1.50", "1E+30", "-1E+30", "18446744073709551615", "18446744073709551616", "-18446744073709551615", "9223372036854775807", "9223372036854775808", "-9223372036854775808", "-9223372036854775809",
-		"255", "256", "-128", "-129", "1E-30", "-0", "NaN", "Infinity", "-Infinity", "123456789012345678901234567890", "0.1"} {
+		"255", "256", "-128", "-129", "1E-30", "-0", "NaN", "Infinity", "-Infinity", "123456789012345678901234567890", "0.1",
+		// plain big integers spelled as decimals, every digit count 20..31, all nines and ...7 (need the top bit of the estimated precision)
+		"99999999999999999999", "999999999999999999999", "9999999999999999999999", "99999999999999999999999", "999999999999999999999999", "9999999999999999999999997", "99999999999999999999999999",
+		"999999999999999999999999997", "9999999999999999999999999999", "99999999999999999999999999999", "999999999999999999999999999999", "-9999999999999999999999999999997"} {
 		d, _, err := apd.NewFromString(s)
 		if err == nil {
 			out = append(out, ev.EBigDec(d))
@@ -251,6 +254,9 @@ func c19Case(c *fx.Ctx, src ev.E, d c19Dest, sh c19Shape, path string) {
 		a := new(big.Float).SetPrec(prec + 64).SetRat(srcNode.num)
 		b := new(big.Float).SetPrec(prec).SetRat(gotNode.num)
 		equal = !isIntegerEvent(src) && bigFloatClose(b, a.SetPrec(prec))
+		if src.K == ev.BigDecimal && src.BDec != nil && src.BDec.Exponent == 0 {
+			equal = false // a plain integer coefficient: nothing justifies rounding it
+		}
 	}
 	if !equal && srcNode.special == "-0" && gotNode.special == "" && gotNode.num.Sign() == 0 {
 		equal = true // integer destinations have no negative zero: the mathematical value is 0
